@@ -126,6 +126,28 @@ Definition op_jump : opfun := fun zs qs =>
       Ok (flat_of_cmat n n (if (herm =? 0)%Z then P else conv_to_B d B P))
   | _ => Err (-1) end.
 
+(* zs = [d; k]; qs = basis ++ k decompositions (a : 1 complex, g : d*d-1 complex) -> H_eff (d x d) ++ K (m x m) of the (H, K) form
+   of the jump-operator generator (jumps_H, jumps_K), ++ the jump operators themselves (k matrices d x d) *)
+Fixpoint read_decomps (k m : nat) (l : list Qc) : list (cplx Qc_OF * (nat -> cplx Qc_OF)) :=
+  match k with
+  | O => []
+  | S k' => let a := nth 0 (cplx_of_flat (firstn 2 l)) cz in
+            let g := cplx_of_flat (firstn (2 * m) (skipn 2 l)) in
+            (a, fun b => nth b g cz) :: read_decomps k' m (skipn (2 + 2 * m) l)
+  end.
+Definition op_jump_hk : opfun := fun zs qs =>
+  match zs with
+  | [dz; kz] => let d := Z.to_nat dz in let n := (d * d)%nat in let m := (n - 1)%nat in
+      let '(B, r) := read_basis d qs in
+      let l := read_decomps (Z.to_nat kz) m r in
+      let lf := map (fun p => (fst p, snd p)) l in
+      let tls := map (fun p => (fst p, cfrz d d (jump_tl d B (snd p)))) l in
+      let H := cfrz d d (msum (map (fun p => jump_heff (fst p) (snd p)) tls)) in
+      let K := cfrz m m (jumps_K l) in
+      Ok (flat_of_cmat d d H ++ flat_of_cmat m m K
+          ++ flat_map (fun p => flat_of_cmat d d (madd (snd p) (mscale (fst p) mid))) tls)
+  | _ => Err (-1) end.
+
 (* zs = [d]; qs = basis ++ H ++ K ++ rho -> the GKSL right-hand side evaluated directly on matrices *)
 Definition op_gksl : opfun := fun zs qs =>
   match zs with
@@ -259,7 +281,7 @@ Definition op_texp : opfun := fun zs qs =>
 
 Definition C18_ops : optable :=
   [ ("c18.lcb"%string, op_lcb); ("c18.gen"%string, op_gen); ("c18.extract"%string, op_extract);
-    ("c18.parts"%string, op_parts); ("c18.parts_all"%string, op_parts_all); ("c18.verdicts"%string, op_verdicts); ("c18.jump"%string, op_jump); ("c18.gksl"%string, op_gksl);
+    ("c18.parts"%string, op_parts); ("c18.parts_all"%string, op_parts_all); ("c18.verdicts"%string, op_verdicts); ("c18.jump"%string, op_jump); ("c18.jump_hk"%string, op_jump_hk); ("c18.gksl"%string, op_gksl);
     ("c18.gksl_jump"%string, op_gksl_jump); ("c18.apply_cb"%string, op_apply_cb); ("c18.verdict"%string, op_verdict);
     ("c18.j_of_k"%string, op_j_of_k); ("c18.k_part"%string, op_k_part); ("c18.tab_col"%string, op_tab_col);
     ("c18.proj_eq"%string, op_proj_eq); ("c18.proj_ineq"%string, op_proj_ineq); ("c18.trunc"%string, op_trunc); ("c18.texp"%string, op_texp) ].
